@@ -21,7 +21,7 @@ pub fn def() -> CheckDef {
 fn meta(_ctx: &Ctx) -> Meta {
     Meta {
         level: "exploration",
-        rule: "every extraction runs in a fresh jail J with the target at J/l1/l2/l3/l4/l5/target and canary files/directories on every level outside the target; a full recursive snapshot (type, mode, size, mtime ns, content hash, link target) of J minus the target is taken before and after and must be identical. Positive: seeded built packages (nested directories, explicit directory entries, symlinks, all permission bits incl. setuid/setgid/sticky) must produce every regular file / directory / symlink at target+path with the archived content, permission bits and link target. Hostile (hand-encoded header + cpio; all absolute paths and symlink targets point into J, '..' chains at most 5 long): '..' in directory or base names, base names with '/', absolute base names, empty names, duplicate paths, a symlink followed by a file of the same path or below it (absolute and relative targets, to a file and to a directory), directory then symlink of the same name, FIFO/char/block/socket/zero type bits, names disagreeing between cpio and header; result must be Ok or Err, never a panic. Release and verifdbg. Unprivileged phase: built packages (incl. read-only directory entries with children) are written to a file and extracted by a child process running as uid 65534 under umask 022 / 077 / 000 / 027; same oracles. distinct_nontrivial = distinct extractions whose jail snapshots were compared".into(),
+        rule: "every extraction runs in a fresh jail J with the target at J/l1/l2/l3/l4/l5/target and canary files/directories on every level outside the target; a full recursive snapshot (type, mode, size, mtime ns, content hash, link target) of J minus the target is taken before and after and must be identical. Positive: seeded built packages (nested directories, explicit directory entries, symlinks, all permission bits incl. setuid/setgid/sticky) must produce every regular file / directory / symlink at target+path with the archived content, permission bits and link target. Hostile (hand-encoded header + cpio; all absolute paths and symlink targets point into J, '..' chains at most 5 long): '..' in directory or base names, base names with '/', absolute base names, empty names, duplicate paths, a symlink followed by a file of the same path or below it (absolute and relative targets, to a file and to a directory), directory then symlink of the same name, FIFO/char/block/socket/zero type bits, names disagreeing between cpio and header; result must be Ok or Err, never a panic. Release and verifdbg. Unprivileged phase: built packages (incl. read-only directory entries with children) are written to a file and extracted by a child process running as uid 65534 under umask 022 / 077 / 000 / 027; same oracles. Further hostile families: entries whose directory name lies below a link, lone links to existing outside objects, links to siblings of the target whose names start with the target's name. distinct_nontrivial = distinct extractions whose jail snapshots were compared".into(),
         assumptions: vec!["hostile inputs are constructed so that an escaping write lands inside the jail".into()],
         floor_distinct: 100,
     }
@@ -84,6 +84,12 @@ fn make_jail(root: &Path) -> Jail {
     std::fs::write(root.join("outside-dir").join("secret"), b"secret outside the target").unwrap();
     std::fs::create_dir_all(d.join("sibling")).unwrap();
     std::fs::write(d.join("sibling").join("file"), b"sibling of the target").unwrap();
+    // siblings whose NAMES start with the target's name (a containment test on strings instead of
+    // path components would take them for the inside)
+    for sib in ["target.previous", "target-old", "targetX", "target "] {
+        std::fs::create_dir_all(d.join(sib).join("sub")).unwrap();
+        std::fs::write(d.join(sib).join("file"), b"sibling whose name starts like the target").unwrap();
+    }
     let target = d.join("target");
     let before = snapshot(root, &target);
     Jail { root: root.to_path_buf(), target, before }
@@ -321,6 +327,13 @@ fn hostile_cases(jail_root: &Path, rng: &mut Rng, n_random: usize) -> Vec<Hostil
         for (depth, dir) in [(1, "/a/lnk/"), (2, "/a/lnk/cache/"), (3, "/a/lnk/cache/v1/"), (4, "/a/lnk/sub/deeper/v2/")] {
             add(&format!("symlink-then-file-in-dirname-below:{lbl}:{depth}"), vec![hfile("/a/", "lnk", 0o120777, b"", &tgt), hfile(dir, "state", reg, b"planted in a directory below a symlink", "")]);
             add(&format!("symlink-then-dir-in-dirname-below:{lbl}:{depth}"), vec![hfile("/a/", "lnk", 0o120777, b"", &tgt), hfile(dir, "state-dir", 0o040700, b"", "")]);
+        }
+    }
+    // links to siblings of the target whose names have the target's name as a string prefix
+    for sib in ["target.previous", "target-old", "targetX", "target "] {
+        for (lbl, tgt) in [("rel", format!("../../{sib}")), ("abs", format!("{j}/l1/l2/l3/l4/l5/{sib}"))] {
+            add(&format!("symlink-to-prefix-sibling:{lbl}"), vec![hfile("/a/", "lnk", 0o120777, b"", &tgt), hfile("/a/lnk/", "state", reg, b"planted in a sibling of the target", ""), hfile("/a/lnk/sub/", "deeper", reg, b"planted deeper", "")]);
+            add(&format!("symlink-to-prefix-sibling-basename:{lbl}"), vec![hfile("/a/", "lnk", 0o120777, b"", &tgt), hfile("/a/", "lnk/state", reg, b"planted through a slash in the base name", "")]);
         }
     }
     // a lone link to something that exists outside, with various permission bits on the link entry
